@@ -58,6 +58,8 @@ trait Put {
     fn scope_end(&mut self) {}
     /// the request size the pool actually serves for a request of `size` (fixed-chunk pools ignore the size)
     fn effective(&self, size: usize) -> usize { size }
+    /// finding class an overlap / out-of-range failure of this pool falls in, if any
+    fn overlap_class(&self) -> Option<&'static str> { None }
 }
 
 fn pat(id: u64, i: usize) -> u8 { (id.wrapping_mul(37).wrapping_add(11) as u8) ^ ((i as u32).wrapping_mul(7) as u8) }
@@ -110,7 +112,7 @@ fn drive(cx: &mut Ctx, cell: &str, cj: &Value, put: &mut dyn Put, ops: &[Vec<u64
                         if len > 0 {
                             for l in &live {
                                 if l.len > 0 && blk.addr < l.addr + l.len && l.addr < end {
-                                    bad!(None, "op {}: new block [{:#x},+{}) overlaps live block [{:#x},+{}) (allocated as #{})", n, blk.addr, len, l.addr, l.len, l.id);
+                                    bad!(put.overlap_class(), "op {}: new block [{:#x},+{}) overlaps live block [{:#x},+{}) (allocated as #{})", n, blk.addr, len, l.addr, l.len, l.id);
                                 }
                             }
                             lo = lo.min(blk.addr); hi = hi.max(end);
@@ -189,8 +191,29 @@ fn drive(cx: &mut Ctx, cell: &str, cj: &Value, put: &mut dyn Put, ops: &[Vec<u64
     Some(obs)
 }
 
-/// narrow finding classes (none recorded at present; kept as the single place to add one)
+/// narrow finding classes (none recorded for misalignment at present; kept as the single place to add one)
 fn class_misaligned(_cell: &str) -> Option<&'static str> { None }
+
+/// finding five_tl_offset_alias: ThreadLocalPool (level 4 of the five-level family, also behind AdaptiveFiveLevelPool)
+/// returns offsets into the per-thread arena for fast-bin sizes and offsets into the shared MutexBasedPool otherwise;
+/// both start at 0, so two live blocks can carry the same MemOffset.  The class is decidable on the case: the pool is a
+/// ThreadLocalPool and the history contains a request that cannot be served from the arena's hot half (aligned size above
+/// max_fast_block_size, or cumulative aligned fast-bin bytes above arena_size / 2).
+fn five_tl_alias_class(is_tl: bool, cfg: &FiveLevelPoolConfig, ops: &[Vec<u64>]) -> bool {
+    if !is_tl { return false; }
+    let al = cfg.alignment as u64;
+    let mut hot = 0u64;
+    for o in ops {
+        if o.get(0) != Some(&0) { continue; }
+        let size = o.get(1).copied().unwrap_or(0);
+        if size == 0 || size > u64::MAX - al { continue; }
+        let a = (size + al - 1) & !(al - 1);
+        if a > cfg.max_fast_block_size as u64 { return true; }
+        hot = hot.saturating_add(a);
+        if hot > (cfg.arena_size / 2) as u64 { return true; }
+    }
+    false
+}
 
 // ---------------- LockFreeMemoryPool ----------------
 struct LfPut { pool: Arc<LockFreeMemoryPool>, msize: usize, h: HashMap<u64, (NonNull<u8>, usize)>, raii: bool, foreign_buf: Vec<u64> }
@@ -276,7 +299,7 @@ impl Drop for BumpPut { fn drop(&mut self) { while self.scopes.pop().is_some() {
 
 // ---------------- five-level family (offsets, memory not reachable through the API) ----------------
 enum Five { L1(NoLockingPool), L2(MutexBasedPool), L3(LockFreePool), L4(ThreadLocalPool), L5(FixedCapacityPool), Ad(AdaptiveFiveLevelPool) }
-struct FivePut { p: Five, cfg: FiveLevelPoolConfig, cap: usize, h: HashMap<u64, (MemOffset, usize)> }
+struct FivePut { p: Five, cfg: FiveLevelPoolConfig, cap: usize, h: HashMap<u64, (MemOffset, usize)>, alias: bool }
 fn off_value(o: &MemOffset) -> usize {
     let s = format!("{:?}", o);
     s.chars().filter(|c| c.is_ascii_digit()).collect::<String>().parse::<usize>().unwrap_or(usize::MAX)
@@ -298,6 +321,7 @@ impl Put for FivePut {
     fn abs_range(&self) -> Option<(usize, usize)> { Some((0, self.cap)) }
     fn must_refuse(&self, size: usize) -> bool { size > self.cap }
     fn cfg_align(&self) -> usize { self.cfg.alignment }
+    fn overlap_class(&self) -> Option<&'static str> { if self.alias { Some("five_tl_offset_alias") } else { None } }
 }
 fn five_config(preset: u64, align: usize, cap: usize, fast: usize, arena: usize, fixed: usize) -> FiveLevelPoolConfig {
     match preset {
@@ -537,7 +561,9 @@ fn run_case(cx: &mut Ctx, c: &Value, force: bool) {
                 Err(p) => { cx.sum.fail(&cell, None, c.clone(), &format!("constructor panicked: {}", p)); return; } };
             let cap = match (&p, cfg.fixed_capacity) { (Five::L5(_), Some(f)) => f, (Five::L4(_), _) => cfg.initial_capacity.max(cfg.arena_size),
                                                         (Five::Ad(_), f) => cfg.initial_capacity.max(cfg.arena_size).max(f.unwrap_or(0)), _ => cfg.initial_capacity };
-            let mut put = FivePut { p, cfg, cap, h: HashMap::new() };
+            let is_tl = match &p { Five::L4(_) => true, Five::Ad(a) => a.current_level() == ConcurrencyLevel::ThreadLocal, _ => false };
+            let alias = five_tl_alias_class(is_tl, &cfg, &ops);
+            let mut put = FivePut { p, cfg, cap, h: HashMap::new(), alias };
             drive(cx, &cell, c, &mut put, &ops);
         }
         "threadlocal" => {
